@@ -44,6 +44,7 @@ type Finding struct {
 
 type WorkerReport struct {
 	Runs        int            `json:"runs"`
+	Evals       int            `json:"evals"`
 	Discarded   int            `json:"discarded"`
 	Steps       int            `json:"steps"`
 	Execs       int            `json:"execs"`
@@ -122,6 +123,11 @@ func cmdWorker(args []string) int {
 		o := c.Run(tp, ropt)
 		wd.Stop()
 		rep.Runs++
+		if o.Evals > 0 {
+			rep.Evals += o.Evals
+		} else {
+			rep.Evals++
+		}
 		if o.HarnessErr != "" {
 			rep.HarnessErr = fmt.Sprintf("%s (%s)", o.HarnessErr, what)
 			break
@@ -131,7 +137,9 @@ func cmdWorker(args []string) int {
 		}
 		rep.Steps += o.Steps
 		rep.Execs += o.Execs
-		if o.NonTrivial {
+		if len(o.CaseHashes) > 0 {
+			rep.Hashes = append(rep.Hashes, o.CaseHashes...)
+		} else if o.NonTrivial {
 			rep.Hashes = append(rep.Hashes, o.TraceHash)
 		}
 		rep.ProgHashes = append(rep.ProgHashes, o.ProgHash)
@@ -502,6 +510,7 @@ func cmdRun(args []string) int {
 					return
 				}
 				total.Runs += wr.Runs
+				total.Evals += wr.Evals
 				total.Discarded += wr.Discarded
 				total.Steps += wr.Steps
 				total.Execs += wr.Execs
@@ -619,7 +628,8 @@ func cmdRun(args []string) int {
 		total.Samples = []any{"no sample collected"}
 	}
 	cov := map[string]any{
-		"evaluations":             total.Runs,
+		"evaluations":             total.Evals,
+		"simulated_runs":          total.Runs,
 		"distinct_nontrivial":     len(distinct),
 		"rule":                    meta.Rule,
 		"samples":                 total.Samples,
